@@ -3705,10 +3705,10 @@ def sptenrand(
         raise ValueError(f"Density must be a fraction (0, 1] but received {density}")
 
     shape = parse_shape(shape)
-    if isinstance(density, float):
+    if isinstance(density, (float, np.floating)):
         # an integer count: a float below one would be read as a density again
         valid_nonzeros = int(np.floor(prod(shape) * density))
-    elif isinstance(nonzeros, (int, float)):
+    elif isinstance(nonzeros, (int, float, np.integer, np.floating)):
         valid_nonzeros = nonzeros
     else:  # pragma: no cover
         raise ValueError(
